@@ -174,6 +174,7 @@ func init() {
 		ID:    "C11",
 		Level: "exploration",
 		Rule: "seeded membership histories as for C10 (pledge / accept / remove / ordinary snapshots / restarts over simulated weeks); after every operation every live node reports, in PRNG order, the view tuple at every past instant around every record (t-1, t, t+1, +30 s, +12 h, +12 h+1, genesis+1 ns, genesis+1 h); the first captured tuple of an instant must never differ later, on any node, after any restart; custodian look-ups are repeated to hit and miss the memo cache; " +
+			"the view tuple includes the durable ReadAllNodes(ts, false|true) lists; late histories contain universal mints; " +
 			"non-trivial = at least two membership records; distinct = canonical-log digests. Custodian updates are not part of these histories (see C34).",
 		Components: clusterComponents,
 		Assume:     clusterAssume,
